@@ -288,9 +288,31 @@ def _handover(ctx, rid, repo):
             lt = list_tensors()
             lt.setdefault("asarray", lt["astensor"])
             lt.setdefault("array", lt["astensor"])
+
+            def _numbers(v, reg_):
+                return [float(to_poly(x).evalf(reg_)) for x in (v if isinstance(v, (list, tuple)) else [v])]
+
+            def allclose(a, k):
+                # numpy.allclose / array_equal / isclose(...).all() on the point the scenario is evaluated at
+                reg_ = current_region[0]
+                x, y = _numbers(a[0], reg_), _numbers(a[1], reg_)
+                rtol = float(to_poly(k.get("rtol", a[2] if len(a) > 2 else 1e-5)).evalf(reg_)) if not isinstance(k.get("rtol", None), float) else k["rtol"]
+                atol = float(to_poly(k.get("atol", a[3] if len(a) > 3 else 1e-8)).evalf(reg_)) if not isinstance(k.get("atol", None), float) else k["atol"]
+                return len(x) == len(y) and all(abs(p_ - q_) <= atol + rtol * abs(q_) for p_, q_ in zip(x, y))
+
+            def array_equal(a, k):
+                reg_ = current_region[0]
+                x, y = _numbers(a[0], reg_), _numbers(a[1], reg_)
+                return x == y
+
+            current_region = [AutoRegion()]
+            lt["allclose"], lt["array_equal"] = allclose, array_equal
             w = World({**lt, "__strict__": True, "get_backend": (lambda tl_: (lambda a, k: (tl_, Obj("optimizer"))))(_tl())},
                       module_env={"log": Obj("log"), "exceptions": Obj("exceptions"), "np": __import__("pyhfsa.alg", fromlist=["MODULE"]).MODULE})
             w.add_class(cls)
+            for q_, f2_ in repo.module(MIX).funcs.items():
+                if "." not in q_ and q_ != "__dir__":
+                    w.add_func(f2_)
             opt = Instance(cls)
             # the two methods every concrete optimizer supplies, as recorders
             opt.attrs["_get_minimizer"], opt.attrs["_minimize"] = PyFunc(getmin, "_get_minimizer"), PyFunc(domin, "_minimize")
@@ -307,21 +329,24 @@ def _handover(ctx, rid, repo):
                     bad = f"{where} receives {type(f_).__name__} instead of the shim's function"
                     break
                 # a wrapper: it must return what the wrapped function returns, wherever it is called
+                from fractions import Fraction
+                where_ = {"p0": 1, "p1": 2, "n0": Fraction(1) + Fraction(1, 10 ** 7), "n1": Fraction(2) + Fraction(2, 10 ** 7), "l0": 0, "l1": 0, "h0": 10, "h1": 10}
                 points = {
-                    "an interior point": ([at("p0"), at("p1")], {"p0": 1, "p1": 2, "l0": 0, "l1": 0, "h0": 10, "h1": 10, "g0": 3, "g1": -3}),
-                    "a point on the lower bounds, gradient pointing outwards": ([at("l0"), at("l1")], {"l0": 0, "l1": 0, "h0": 10, "h1": 10, "g0": 3, "g1": 5}),
-                    "a point on the upper bounds, gradient pointing outwards": ([at("h0"), at("h1")], {"l0": 0, "l1": 0, "h0": 10, "h1": 10, "g0": -3, "g1": -5}),
+                    "an interior point": ([at("p0"), at("p1")], {"g0": 3, "g1": -3}),
+                    "a point 1e-7 (relative) away from the one just evaluated": ([at("n0"), at("n1")], {"g0": 3, "g1": -3}),
+                    "a point on the lower bounds, gradient pointing outwards": ([at("l0"), at("l1")], {"g0": 3, "g1": 5}),
+                    "a point on the upper bounds, gradient pointing outwards": ([at("h0"), at("h1")], {"g0": -3, "g1": -5}),
                 }
                 for lab, (pt, reg) in points.items():
                     del seen_at[:]
-                    from fractions import Fraction
                     from ..listnp import T
-                    region = AutoRegion({k_: Fraction(v_) for k_, v_ in reg.items()})
+                    region = AutoRegion({k_: Fraction(v_) for k_, v_ in {**where_, **reg}.items()})
                     if isinstance(f_, PyFunc):
                         out = f_.f([T(pt)], {})
                     else:
                         home = f_.interp if isinstance(getattr(f_, "interp", None), Interp) else Interp({}, {}, region, externals=w.externals())
                         home.region = region
+                        current_region[0] = region
                         out = home._call_closure(f_, [T(pt)], {})
                     if do_grad:
                         v_, g_ = out
@@ -391,7 +416,7 @@ def _handover_minimisers(ctx, rid, repo):
                 w = World({"__strict__": True, "Minuit": lambda a, k: (made.append((a, k)) or Obj("MINUIT"))}, region=AutoRegion(), module_env={"iminuit": Obj("iminuit"), "exceptions": Obj("exceptions")})
                 w.add_class(mc_)
                 inst = Instance(mc_)
-                inst.attrs.update({"verbose": False, "errordef": c(1)})
+                inst.attrs.update({"verbose": False, "errordef": at("ERRORDEF"), "strategy": None, "steps": c(1000), "tolerance": at("TOLERANCE")})  # a non-default errordef (0.5 is documented)
                 w.call_method(inst, "_get_minimizer", [func, [at("i0"), at("i1")], [(at("l0"), at("h0")), (at("l1"), at("h1"))]], {"fixed_vals": None, "do_grad": do_grad, "par_names": None})
                 a, k = made[-1]
                 fcn, grad = (a[0] if a else k.get("fcn")), k.get("grad", a[2] if len(a) > 2 else None)
@@ -399,6 +424,24 @@ def _handover_minimisers(ctx, rid, repo):
                 v_ = show(call(w, fcn, [T(pt)]))
                 g_ = show(_aslist(call(w, grad, [T(pt)]))) if isinstance(grad, (Closure, PyFunc)) else grad
                 at_ok = all(x == ["p0", "p1"] for x in seen_at) and seen_at
+                # cost and gradient scaled by ONE common factor are still value and gradient of one function
+                if do_grad and isinstance(grad, (Closure, PyFunc)) and at_ok and v_ != want_v:
+                    try:
+                        vp_, gp_ = to_poly(call(w, fcn, [T(pt)])), [to_poly(x) for x in _aslist(call(w, grad, [T(pt)]))]
+                        if len(gp_) == 2 and all(vp_ * at(n_) == at("V") * g__ for n_, g__ in zip(("g0", "g1"), gp_)) and not vp_.is_zero():
+                            v_, g_ = want_v, want_g
+                    except (Undecided, TypeError):
+                        pass
+                if not do_grad and at_ok and v_ != want_v and not isinstance(grad, (Closure, PyFunc)):
+                    # no gradient is handed over: a cost that is a constant multiple of the objective has the same minimum
+                    try:
+                        vp_ = to_poly(call(w, fcn, [T(pt)]))
+                        r1 = vp_.evalf(AutoRegion({"V": Fraction(1)}))
+                        r2 = vp_.evalf(AutoRegion({"V": Fraction(2)}))
+                        if r1 != 0 and r2 == 2 * r1:
+                            v_ = want_v
+                    except (Undecided, TypeError):
+                        pass
                 if v_ != want_v or not at_ok:
                     ctx.violated(rid, gm, f"Minuit cost function [do_grad={do_grad}]", "the function Minuit minimises is not the shim's objective value at the point Minuit asks for", expected=f"{want_v} at ['p0', 'p1']", found=f"{v_} (objective evaluated at {seen_at})", node=gm.node)
                 elif do_grad and grad is not None and g_ != want_g:
